@@ -741,4 +741,339 @@ theorem floor_eq (q : Rat) (z : Int) (h1 : (z : Rat) ≤ q) (h2 : q < ((z + 1 : 
   omega
 
 
+/-! ### acceptance of the grammar's spellings by the gate `NumLit.parseNumUnsigned` -/
+
+open CueVerif.NumLit (lMant nulErr digitVal chL lNext lExit lSign lExpDigits lExponent lFraction lPrefixed lZeroTail lScanNumber parseNum parseNumUnsigned accL kindOf isMul)
+
+/-- the rest of the input ends a run of the literal parser's mantissa loop without a NUL -/
+def RStop (base : Nat) (r : List Nat) : Prop :=
+  match r with
+  | [] => True
+  | c :: _ => ¬ digitVal c < base ∧ c ≠ 0
+
+theorem digitOf_pos {c : Nat} (h : digitOf c < 16) : c ≠ 0 := by
+  intro e; subst e; simp [digitOf] at h
+
+theorem nulErr_run (base : Nat) (hb : base ≤ 16) (pu : Bool) (as r : List Nat)
+    (h : wfTail base pu as = true) (hr : RStop base r) : nulErr (as ++ r) = false := by
+  cases as with
+  | nil =>
+    cases r with
+    | nil => rfl
+    | cons c t => exact NumLit.nulErr_cons_ne hr.2
+  | cons a t =>
+    unfold wfTail at h
+    split at h
+    · rename_i ha
+      have : a = 95 := by simpa using ha
+      exact NumLit.nulErr_cons_ne (by omega)
+    · simp only [Bool.and_eq_true, isDigit, decide_eq_true_eq] at h
+      exact NumLit.nulErr_cons_ne (digitOf_pos (by omega))
+
+theorem lMant_run (base : Nat) (hb : base ≤ 16) (hb0 : 0 < base) (r : List Nat) (hr : RStop base r) :
+    ∀ (ds : List Nat) (last : Nat), wfTail base (last == 95) ds = true →
+      lMant base last (ds ++ r) = (r, ds.any (· != 95), false) := by
+  intro ds
+  induction ds with
+  | nil =>
+    intro last h
+    have hl : (last == 95) = false := by simpa [wfTail] using h
+    cases r with
+    | nil => simp [lMant, hl]
+    | cons c t => simp [lMant, hr.1, hl]
+  | cons a as ih =>
+    intro last h
+    unfold wfTail at h
+    split at h
+    · rename_i ha
+      have ha' : a = 95 := by simpa using ha
+      subst ha'
+      simp only [Bool.and_eq_true, Bool.not_eq_true'] at h
+      have hd : digitVal 95 < base := by simp [digitVal]; exact hb0
+      have hn := nulErr_run base hb true as r h.2 hr
+      rw [List.cons_append, lMant, if_pos hd, ih 95 (by simpa using h.2)]
+      simp [h.1, hn]
+    · rename_i ha
+      simp only [Bool.and_eq_true, isDigit, decide_eq_true_eq] at h
+      have hd : digitVal a < base := by rw [digitVal_eq_digitOf a (by omega)]; exact h.1
+      have ha' : (a == 95) = false := by simpa using ha
+      have hn := nulErr_run base hb false as r h.2 hr
+      rw [List.cons_append, lMant, if_pos hd, ih a (by rw [ha']; exact h.2)]
+      have ha2 : (a != 95) = true := by simpa using ha
+      simp [ha', ha2, hn]
+
+theorem wfDigits_tail {base : Nat} (hb : base ≤ 16) {ds : List Nat} (h : wfDigits base ds = true) :
+    wfTail base false ds = true ∧ ds.any (· != 95) = true := by
+  cases ds with
+  | nil => simp [wfDigits] at h
+  | cons c cs =>
+    simp only [wfDigits, Bool.and_eq_true, isDigit, decide_eq_true_eq] at h
+    have hc : c ≠ 95 := by intro e; subst e; simp [digitOf] at h; omega
+    have hc' : (c == 95) = false := by simpa using hc
+    refine ⟨?_, by simp [hc]⟩
+    unfold wfTail
+    simp [hc', isDigit, h.1, h.2]
+
+theorem lMant_wf (base : Nat) (hb : base ≤ 16) (hb0 : 0 < base) (ds r : List Nat)
+    (h : wfDigits base ds = true) (hr : RStop base r) :
+    lMant base 0 (ds ++ r) = (r, true, false) := by
+  have := wfDigits_tail hb h
+  rw [lMant_run base hb hb0 r hr ds 0 this.1, this.2]
+
+theorem lMant_none (base : Nat) (r : List Nat) (hr : RStop base r) :
+    lMant base 0 r = (r, false, false) := by
+  cases r with
+  | nil => rfl
+  | cons c t => simp [lMant, hr.1]
+
+theorem rstop_nil (b : Nat) : RStop b [] := trivial
+
+theorem rstop_mul (m : Multiplier) : RStop 10 m.spell := by
+  obtain ⟨l, b⟩ := m
+  cases l <;> cases b <;> exact ⟨by decide, by decide⟩
+
+theorem rstop_exp (x : Exponent) : RStop 10 x.spell := by
+  obtain ⟨u, s, ds⟩ := x
+  cases u <;> simp [Exponent.spell, RStop, digitVal]
+
+theorem rstop_dot (t : List Nat) : RStop 10 (46 :: t) := ⟨by decide, by decide⟩
+
+theorem lExponent_nil (f : Bool) : lExponent f [] false = some (f, [], false) := by
+  cases f <;> rfl
+
+theorem lExponent_mul (f : Bool) (m : Multiplier) : lExponent f m.spell false = some (false, [], false) := by
+  obtain ⟨l, b⟩ := m
+  cases l <;> cases b <;> cases f <;> rfl
+
+theorem lExponent_exp (f : Bool) (x : Exponent) (hx : wfDigits 10 x.ds = true) :
+    lExponent f x.spell false = some (true, [], false) := by
+  obtain ⟨u, s, ds⟩ := x
+  have hm := lMant_wf 10 (by decide) (by decide) ds [] hx trivial
+  rw [List.append_nil] at hm
+  obtain ⟨c, cs, rfl, hc⟩ := wf_head hx
+  have hc' := NumLit.isDec_iff.1 hc
+  have n1 : nulErr (c :: cs) = false := NumLit.nulErr_cons_ne (by omega)
+  have h45 : (c == 45) = false := by simp; omega
+  have h43 : (c == 43) = false := by simp; omega
+  have n2 : ∀ t, nulErr (43 :: t) = false := fun t => NumLit.nulErr_cons_ne (by decide)
+  have n3 : ∀ t, nulErr (45 :: t) = false := fun t => NumLit.nulErr_cons_ne (by decide)
+  cases u <;> cases s <;>
+    simp [Exponent.spell, lExponent, isMul, lSign, lExpDigits, hm, lExit, n1, n2, n3, h45, h43]
+
+theorem lExponent_ex (f : Bool) (ex : Option Exponent) (h : exWf ex = true) :
+    lExponent f (exSpell ex) false = some (f || ex.isSome, [], false) := by
+  cases ex with
+  | none => simpa [exSpell] using lExponent_nil f
+  | some x => simpa [exSpell] using lExponent_exp f x h
+
+
+theorem nulErr_rstop {b : Nat} {r : List Nat} (h : RStop b r) : nulErr r = false := by
+  cases r with
+  | nil => rfl
+  | cons c t => exact NumLit.nulErr_cons_ne h.2
+
+theorem lFraction_dot (f : Bool) (fp : Option (List Nat)) (tail : List Nat) (hfp : optWf fp = true)
+    (hr : RStop 10 tail) :
+    lFraction f (46 :: (optSpell fp ++ tail)) false = lExponent true tail false := by
+  cases fp with
+  | none =>
+    simp [lFraction, optSpell, lMant_none 10 tail hr, nulErr_rstop hr]
+  | some d =>
+    have hd : wfDigits 10 d = true := hfp
+    have hn := nulErr_run 10 (by decide) false d tail (wfDigits_tail (by decide) hd).1 hr
+    simp [lFraction, optSpell, lMant_wf 10 (by decide) (by decide) d tail hd hr, hn]
+
+theorem lFraction_nodot (f : Bool) (tail : List Nat) (h : chL tail ≠ 46) :
+    lFraction f tail false = lExponent f tail false := by
+  simp [lFraction, h]
+
+theorem lScan_int (ip rest : List Nat) (hip : wfDigits 10 ip = true) (hr : RStop 10 rest)
+    (hs : HeadSafe rest)
+    (hz : (chL rest = 46 ∨ chL rest = 101 ∨ chL rest = 69) ∨
+      ((∀ a t, ip ≠ 48 :: a :: t) ∧ (rest = [] ∨ isMul (chL rest) = true))) :
+    lScanNumber false (ip ++ rest) false = lFraction false rest false := by
+  have hm := lMant_wf 10 (by decide) (by decide) ip rest hip hr
+  cases ip with
+  | nil => simp [wfDigits] at hip
+  | cons c cs =>
+    by_cases hc : c = 48
+    · subst hc
+      have ht : wfTail 10 false cs = true := by
+        simp only [wfDigits, Bool.and_eq_true] at hip; exact hip.2
+      have hn := nulErr_run 10 (by decide) false cs rest ht hr
+      have hm2 := lMant_run 10 (by decide) (by decide) rest hr cs 0 ht
+      have hsafe : SafeByte (chL (cs ++ rest)) ∨ chL (cs ++ rest) = 0 := by
+        cases cs with
+        | nil =>
+          cases rest with
+          | nil => right; rfl
+          | cons a t => left; exact hs a t rfl
+        | cons a t => left; exact safe_of_ok (wfTail_ok 10 _ false ht a (by simp))
+      have h120 : (chL (cs ++ rest) == 120) = false := by
+        rcases hsafe with h | h
+        · simpa using h.1
+        · rw [h]; rfl
+      have h88 : (chL (cs ++ rest) == 88) = false := by
+        rcases hsafe with h | h
+        · simpa using h.2.1
+        · rw [h]; rfl
+      have h98 : (chL (cs ++ rest) == 98) = false := by
+        rcases hsafe with h | h
+        · simpa using h.2.2.1
+        · rw [h]; rfl
+      have h111 : (chL (cs ++ rest) == 111) = false := by
+        rcases hsafe with h | h
+        · simpa using h.2.2.2
+        · rw [h]; rfl
+      have e : lScanNumber false (48 :: cs ++ rest) false = lZeroTail rest (cs.any (· != 95)) false := by
+        simp [lScanNumber, hn, h120, h88, h98, h111, hm2]
+      rw [e]
+      rcases hz with hz | ⟨hz1, hz2⟩
+      · have : (chL rest == 101 || chL rest == 69 || chL rest == 46) = true := by
+          rcases hz with h | h | h <;> simp [h]
+        simp [lZeroTail, this]
+      · have hcs : cs = [] := by
+          cases cs with
+          | nil => rfl
+          | cons a t => exact absurd rfl (hz1 a t)
+        subst hcs
+        rcases hz2 with h | h
+        · subst h; rfl
+        · cases rest with
+          | nil => rfl
+          | cons a t =>
+            have ha : isMul a = true := h
+            have ha' : (((a = 75 ∨ a = 77) ∨ a = 71) ∨ a = 84) ∨ a = 80 := by
+              simpa [isMul] using ha
+            rcases ha' with (((h | h) | h) | h) | h <;> subst h <;> simp [lZeroTail, lFraction, isMul]
+    · have hc' : (c == 48) = false := by simpa using hc
+      rw [List.cons_append] at hm
+      simp [lScanNumber, hc', hm]
+
+theorem accept_int (ip rest : List Nat) (hip : wfDigits 10 ip = true) (hr : RStop 10 rest)
+    (hs : HeadSafe rest)
+    (hz : (chL rest = 46 ∨ chL rest = 101 ∨ chL rest = 69) ∨
+      ((∀ a t, ip ≠ 48 :: a :: t) ∧ (rest = [] ∨ isMul (chL rest) = true))) :
+    parseNumUnsigned (ip ++ rest) = accL (lFraction false rest false) := by
+  rw [← lScan_int ip rest hip hr hs hz]
+  obtain ⟨c, cs, rfl, hc⟩ := wf_head hip
+  have hc' := NumLit.isDec_iff.1 hc
+  have h45 : (c == 45) = false := by simp; omega
+  have h43 : (c == 43) = false := by simp; omega
+  rw [List.cons_append, ← NumLit.parseNum_dec c _ hc]
+  simp [parseNumUnsigned, h45, h43]
+
+theorem accept_dot (fp rest : List Nat) (hfp : wfDigits 10 fp = true) (hr : RStop 10 rest) :
+    parseNumUnsigned (46 :: (fp ++ rest)) = accL (lExponent true rest false) := by
+  have hm := lMant_wf 10 (by decide) (by decide) fp rest hfp hr
+  obtain ⟨c, cs, rfl, hc⟩ := wf_head hfp
+  rw [List.cons_append] at hm ⊢
+  have : parseNumUnsigned (46 :: c :: (cs ++ rest)) = parseNum (46 :: c :: (cs ++ rest)) := by
+    simp [parseNumUnsigned]
+  rw [this, NumLit.parseNum_dot c _ hc]
+  simp [lScanNumber, hm]
+
+theorem accept_prefixed (x base : Nat) (ds : List Nat) (hb : base ≤ 16) (hb0 : 0 < base)
+    (hds : wfDigits base ds = true)
+    (hx : (x = 120 ∧ base = 16) ∨ (x = 88 ∧ base = 16) ∨ (x = 98 ∧ base = 2) ∨ (x = 111 ∧ base = 8)) :
+    parseNumUnsigned (48 :: x :: ds) = some .int := by
+  have hm := lMant_wf base hb hb0 ds [] hds trivial
+  rw [List.append_nil] at hm
+  have hn : nulErr ds = false := by
+    have := nulErr_run base hb false ds [] (wfDigits_tail hb hds).1 trivial
+    rwa [List.append_nil] at this
+  have : parseNumUnsigned (48 :: x :: ds) = parseNum (48 :: x :: ds) := by
+    simp [parseNumUnsigned]
+  rw [this, NumLit.parseNum_dec 48 _ (by decide)]
+  have n120 : nulErr (120 :: ds) = false := NumLit.nulErr_cons_ne (by decide)
+  have n88 : nulErr (88 :: ds) = false := NumLit.nulErr_cons_ne (by decide)
+  have n98 : nulErr (98 :: ds) = false := NumLit.nulErr_cons_ne (by decide)
+  have n111 : nulErr (111 :: ds) = false := NumLit.nulErr_cons_ne (by decide)
+  rcases hx with ⟨rfl, rfl⟩ | ⟨rfl, rfl⟩ | ⟨rfl, rfl⟩ | ⟨rfl, rfl⟩ <;>
+    simp [lScanNumber, lPrefixed, hm, hn, lExit, accL, kindOf, n120, n88, n98, n111]
+
+theorem rstop_exSpell (ex : Option Exponent) : RStop 10 (exSpell ex) := by
+  cases ex with
+  | none => trivial
+  | some x => exact rstop_exp x
+
+theorem chL_mul (m : Multiplier) : isMul (chL m.spell) = true ∧ chL m.spell ≠ 46 := by
+  obtain ⟨l, b⟩ := m
+  cases l <;> cases b <;> exact ⟨by decide, by decide⟩
+
+theorem chL_exp (x : Exponent) : (chL x.spell = 101 ∨ chL x.spell = 69) ∧ chL x.spell ≠ 46 := by
+  obtain ⟨u, s, ds⟩ := x
+  cases u <;> simp [Exponent.spell, chL]
+
+theorem dec_wf (ds : List Nat) (h : (Lit.dec ds).wf = true) :
+    wfDigits 10 ds = true ∧ ∀ a t, ds ≠ 48 :: a :: t := by
+  simp only [Lit.wf, Bool.or_eq_true, beq_iff_eq] at h
+  rcases h with h | h
+  · subst h; exact ⟨by decide, by intro a t e; simp at e⟩
+  · cases ds with
+    | nil => simp at h
+    | cons c cs =>
+      simp only [Bool.and_eq_true, decide_eq_true_eq] at h
+      refine ⟨?_, ?_⟩
+      · simp only [wfDigits, Bool.and_eq_true, isDigit, decide_eq_true_eq]
+        exact ⟨(digitOf_lt10_iff c).2 (NumLit.isDec_iff.2 ⟨by omega, by omega⟩), h.2⟩
+      · intro a t e; simp at e; omega
+
+theorem si_noLeadingZero (ip : List Nat) (fp : Option (List Nat)) (m : Multiplier)
+    (h : (Lit.si ip fp m).siLeadingZero = false) : ∀ a t, ip ≠ 48 :: a :: t := by
+  intro a t e; subst e; simp [Lit.siLeadingZero] at h
+
+theorem literal_accepted_aux (l : Lit) (hwf : l.wf = true) (hz : l.siLeadingZero = false) :
+    parseNumUnsigned l.spell = some l.kind := by
+  cases l with
+  | dec ds =>
+    obtain ⟨h1, h2⟩ := dec_wf ds hwf
+    have := accept_int ds [] h1 trivial headSafe_nil (Or.inr ⟨h2, Or.inl rfl⟩)
+    rw [List.append_nil] at this
+    exact this
+  | bin ds => exact accept_prefixed 98 2 ds (by decide) (by decide) hwf (by simp)
+  | oct ds => exact accept_prefixed 111 8 ds (by decide) (by decide) hwf (by simp)
+  | hex u ds =>
+    cases u
+    · exact accept_prefixed 120 16 ds (by decide) (by decide) hwf (by simp)
+    · exact accept_prefixed 88 16 ds (by decide) (by decide) hwf (by simp)
+  | si ip fp m =>
+    have hlz := si_noLeadingZero ip fp m hz
+    simp only [Lit.wf, Bool.and_eq_true] at hwf
+    cases fp with
+    | none =>
+      have e : (Lit.si ip none m).spell = ip ++ m.spell := by simp [Lit.spell]
+      rw [e, accept_int ip _ hwf.1 (rstop_mul m) (headSafe_mul m) (Or.inr ⟨hlz, Or.inr (chL_mul m).1⟩),
+        lFraction_nodot _ _ (chL_mul m).2, lExponent_mul]
+      rfl
+    | some f =>
+      have e : (Lit.si ip (some f) m).spell = ip ++ 46 :: (optSpell (some f) ++ m.spell) := by
+        simp [Lit.spell, optSpell]
+      rw [e, accept_int ip _ hwf.1 (rstop_dot _) (headSafe_dot _) (Or.inl (Or.inl rfl)),
+        lFraction_dot _ _ _ hwf.2 (rstop_mul m), lExponent_mul]
+      rfl
+  | siDot fp m =>
+    simp only [Lit.wf] at hwf
+    have e : (Lit.siDot fp m).spell = 46 :: (fp ++ m.spell) := by simp [Lit.spell]
+    rw [e, accept_dot fp _ hwf (rstop_mul m), lExponent_mul]
+    rfl
+  | fPoint ip fp ex =>
+    simp only [Lit.wf, Bool.and_eq_true] at hwf
+    have e : (Lit.fPoint ip fp ex).spell = ip ++ 46 :: (optSpell fp ++ exSpell ex) := by simp [Lit.spell]
+    rw [e, accept_int ip _ hwf.1.1 (rstop_dot _) (headSafe_dot _) (Or.inl (Or.inl rfl)),
+      lFraction_dot _ _ _ hwf.1.2 (rstop_exSpell ex), lExponent_ex _ _ hwf.2]
+    rfl
+  | fExp ip x =>
+    simp only [Lit.wf, Bool.and_eq_true] at hwf
+    have e : (Lit.fExp ip x).spell = ip ++ x.spell := by simp [Lit.spell]
+    rw [e, accept_int ip _ hwf.1 (rstop_exp x) (headSafe_exp x)
+      (Or.inl (Or.inr (chL_exp x).1)), lFraction_nodot _ _ (chL_exp x).2, lExponent_exp _ _ hwf.2]
+    rfl
+  | fDot fp ex =>
+    simp only [Lit.wf, Bool.and_eq_true] at hwf
+    have e : (Lit.fDot fp ex).spell = 46 :: (fp ++ exSpell ex) := by simp [Lit.spell]
+    rw [e, accept_dot fp _ hwf.1 (rstop_exSpell ex), lExponent_ex _ _ hwf.2]
+    rfl
+
+
 end CueVerif.Proofs.NumValLitAux
